@@ -183,7 +183,7 @@ func vfBuildMerge(nseg, dp, extra int) *vfMergeScenario {
 // document dropped or duplicated — skips exactly when nothing live remains in
 // the merged segment, and restores the representation invariant.
 //
-// vf:harness property=C06 cases=nseg:1..2;dp:1..2;extra:0..1|nseg:1;dp:3;extra:0 cases.thorough=nseg:1..3;dp:1..2;extra:0..1|nseg:1..2;dp:3;extra:0 goinline=1 chanslack=8 maxpaths=600000
+// vf:harness property=C06 cases=nseg:1..2;dp:1..2;extra:0..1|nseg:1;dp:3;extra:0 goinline=1 chanslack=8 maxpaths=600000
 // vf:bounds nseg plan-time segments (quick 1..2, thorough 3) of dp docs (1..2, thorough 3), arbitrary ids/payloads; per doc: deleted at plan time, deleted since, or live (arbitrary, at least one doc live at plan time per segment); any non-empty subset merged; segments whose docs were all deleted since are absent from the current root; 0..1 segments appended since
 // vf:assume model merger = the SegmentPlugin.Merge contract (surviving docs in order, DocumentNumbers maps old to new numbers); goroutines of postingsIteratorAll inline
 func VF_C06_StepMerge(nseg int, dp int, extra int) {
